@@ -149,10 +149,34 @@ def run_corpus(ctx, decoder, files):
                         % (name, d[1], d[0], d[2], jsonable(d[3]), jsonable(d[4])), dict(file=name))
 
 
+_FAILING = {}
+
+
+def provoke_failure(ctx, decoder, msg):
+    """the decoder is long-lived: a message it refused must leave no trace in how it decodes the next one.  Refused here:
+    an UNCOMPRESSED and a COMPRESSED message cut short inside the data section (the failure happens in the middle of the
+    template walk), and copies of the current message with a damaged stop signature / cut short"""
+    if not _FAILING:
+        B, D = cases.tables(33)
+        for comp in (False, True):
+            m = R.build_message([1001, 12001, 101000, 31001, 4024, 1015], B, D, R.Policy(ctx.rng), 3, comp, 4)
+            fr = R.parse_frame(m.bytes)
+            _FAILING[comp] = m.bytes[:fr.sections[4][0] + 6]
+    b = msg.bytes
+    for bad in (_FAILING[False], _FAILING[True], b[:max(20, len(b) - 7)], b[:-4] + b'7767', _FAILING[not msg.compressed]):
+        try:
+            decoder.process(bad)
+            ctx.count('damaged_copy_decoded')
+        except Exception:
+            ctx.count('failures_provoked')
+
+
 def run(ctx):
     from pybufrkit.decoder import Decoder
     decoder = Decoder()
     for name, msg in cases.shape_cases(ctx):
+        if ctx.counters.get('shape_cases_compared', 0) % 4 == 1:
+            provoke_failure(ctx, decoder, msg)
         compare_case(ctx, decoder, msg, 'shape', name)
         ctx.count('shape_cases_compared')
         ctx.add('shapes', name)
@@ -171,6 +195,8 @@ def run(ctx):
         c = cases.random_case(ctx)
         if c is None:
             continue
+        if n % 5 == 0:
+            provoke_failure(ctx, decoder, c[0])
         compare_case(ctx, decoder, c[0], 'random')
 
 
